@@ -774,9 +774,19 @@ func runC08(o Opts) (*Result, error) {
 		runOut
 		cfg Cfg
 	}
-	outs := make([]hout, o.N)
-	ParallelFor(o.N, o.Workers, func(i int) {
-		ot, cfg := run(o.Seed, i, n, nil, nil, cnt)
+	// the fixed histories (c08_fixed.go) run after the generated ones on every run
+	fixed := fixedHists()
+	total := o.N + len(fixed)
+	outs := make([]hout, total)
+	ParallelFor(total, o.Workers, func(i int) {
+		var ot runOut
+		var cfg Cfg
+		if i < o.N {
+			ot, cfg = run(o.Seed, i, n, nil, nil, cnt)
+		} else {
+			h := fixed[i-o.N]
+			ot, cfg = run(o.Seed, i, 0, &h.Cfg, h.Ops, cnt)
+		}
 		if ot.fail != nil {
 			sig := ot.fail.Signature
 			fails := func(cand []Op) bool {
